@@ -33,7 +33,7 @@ func (hostile) Rule() string {
 		"symbols, huge IDs), or a stream of correctly framed binary values whose fields take extreme values (decimal and timestamp-fraction " +
 		"exponents and coefficients up to 2^64, calendar fields, symbol / field / annotation IDs, import max_id and version), hit by 0..3 stored-medium faults (bit flip, byte set, zeroed / dropped / duplicated / spliced block, " +
 		"truncation, and length / exponent / ID fields replaced by boundary values 0, 1, 13, 14, 127, 128, 2^14, 2^31-1, 2^31, 2^63, " +
-		"2^64-1 through the byte map) — plus, by enumeration, all byte strings of length <= 3 over a 24-byte alphabet of tag bytes and " +
+		"2^64-1 through the byte map; for one binary document in three, every nested container length moved by plus and minus one, read by a traversal and six navigating callers) — plus, by enumeration, all byte strings of length <= 3 over a 24-byte alphabet of tag bytes and " +
 		"punctuation (complete once 1804 indices have run). Each stream is driven by: two seeded random call sequences (<= 200 calls over " +
 		"all 21 Reader methods, then a drain), a traversal using IntValue, three seeded navigating traversals (skip / enter / leave early per container), Decoder.Decode to exhaustion, and Decoder.DecodeTo into " +
 		"seeded members of a zoo of 68 Go target types (named key, byte and int types, embedded pointers to unexported structs, nested pointers, unsupported kinds), each under whole or chunked simulated delivery. Watchdogs: panic, reads after " +
@@ -505,6 +505,9 @@ func (s hostile) Run(c *Ctx, i int) {
 	}
 	pr := r.Fork()
 	s.drive(c, pr, data)
+	if base == "valid-doc" && !text && i%3 == 0 {
+		s.containerLengthSweep(c, out)
+	}
 	// enumeration of short strings
 	for t := 0; t < 8; t++ {
 		b := shortString(i*8 + t)
@@ -512,6 +515,57 @@ func (s hostile) Run(c *Ctx, i int) {
 		s.driveShort(c, pr, b)
 		if len(b) > 0 {
 			s.driveShort(c, pr, append([]byte{0xe0, 0x01, 0x00, 0xea}, b...))
+		}
+	}
+}
+
+// containerLengthSweep enumerates, for one valid binary document, every nested container's length field moved by
+// one in either direction (the smallest overrun and underrun of the enclosing container), each read by a full traversal
+// and by six navigating callers that skip, enter or leave early.
+func (s hostile) containerLengthSweep(c *Ctx, out *render.Out) {
+	n := 0
+	for _, site := range out.Sites {
+		if site.Depth == 0 || (site.Kind != "len" && site.Kind != "tag") {
+			continue
+		}
+		tagOff, at := site.Off, site.Off
+		if site.Kind == "len" {
+			tagOff, at = site.Off-1, site.Off+site.Len-1
+		}
+		if tagOff < 0 || tagOff >= len(out.Bytes) {
+			continue
+		}
+		if t := out.Bytes[tagOff] >> 4; t < 11 || t > 13 {
+			continue
+		}
+		if site.Kind == "tag" && (out.Bytes[tagOff]&0x0f >= 14 || (out.Bytes[tagOff]>>4 == 13 && out.Bytes[tagOff]&0x0f == 1)) {
+			continue // the length lives in the VarUInt that follows
+		}
+		for _, delta := range []int{1, -1} {
+			var nb byte
+			if site.Kind == "tag" {
+				l := int(out.Bytes[at]&0x0f) + delta
+				if l < 0 || l > 13 || (out.Bytes[at]>>4 == 13 && l == 1) {
+					continue
+				}
+				nb = out.Bytes[at]&0xf0 | byte(l)
+			} else {
+				v := int(out.Bytes[at]&0x7f) + delta
+				if v < 0 || v > 0x7f {
+					continue
+				}
+				nb = 0x80 | byte(v)
+			}
+			data := sim.ApplyMedium(out.Bytes, sim.MediumFault{Kind: "replace", At: at, Len: 1, Data: []byte{nb}})
+			c.Count("fault.container-length-plus-minus-one.applied", 1)
+			s.exec(c, drive.HostileCase{Data: data, Plan: planWhole(), Kind: "traverse"})
+			for q := 0; q < 6; q++ {
+				s.exec(c, drive.HostileCase{Data: data, Plan: planWhole(), Kind: "skim", Target: q*7919 + n})
+			}
+			n++
+			if n >= 24 {
+				return
+			}
 		}
 	}
 }
